@@ -403,6 +403,41 @@ def walk_table(
     return out
 
 
+def truth_of(expr, classify_text, scenario) -> Optional[bool]:
+    """Truth value of a returned / tested expression under a scenario; None if undetermined.
+    classify_text(text) -> (atom, positive) | None, applied to atomic sub-expressions in canonical positive form"""
+    from .cfg import normalise_test
+
+    if isinstance(expr, ast.BoolOp):
+        vals = [truth_of(v, classify_text, scenario) for v in expr.values]
+        if isinstance(expr.op, ast.And):
+            if any(v is False for v in vals):
+                return False
+            return True if all(v is True for v in vals) else None
+        if any(v is True for v in vals):
+            return True
+        return False if all(v is False for v in vals) else None
+    if isinstance(expr, ast.UnaryOp) and isinstance(expr.op, ast.Not):
+        v = truth_of(expr.operand, classify_text, scenario)
+        return None if v is None else (not v)
+    if isinstance(expr, ast.Constant):
+        return bool(expr.value)
+    if isinstance(expr, ast.IfExp):
+        t = truth_of(expr.test, classify_text, scenario)
+        if t is None:
+            return None
+        return truth_of(expr.body if t else expr.orelse, classify_text, scenario)
+    e2, flip = normalise_test(expr)
+    c = classify_text(src(e2))
+    if c is None:
+        return None
+    v = scenario.get(c[0])
+    if v is None:
+        return None
+    v = v if c[1] else (not v)
+    return (not v) if flip else v
+
+
 def _is_explicit_raise(n: Node) -> bool:
     """Only explicit raises (raise statements, failing asserts, calls in raising_calls) are
     followed exceptionally by the table walker: a node whose *only* successors are exceptional"""
